@@ -49,6 +49,7 @@ class Gen:
         self.funcs = []          # {name, impl, file, src_line, gen_start, gen_end, props, ext}
         self.dropped = []        # text of dropped statements (R4)
         self.shared_contracts = []
+        self.smt_options = []
         self.out_lines = []
         self.origin = []         # per generated line: (kind, ref)
 
@@ -482,6 +483,8 @@ class Gen:
             if s.startswith('//@include'):
                 p = os.path.join(VERIF, 'verus', 'prelude', s.split()[1])
                 self.emit(open(p, encoding='utf-8').read().rstrip('\n'), ('prelude', s.split()[1]))
+            elif s.startswith('//@smt_option'):
+                self.smt_options.append(s.split()[1])
             elif s.startswith('//@item'):
                 args, kv = parse_args(s[len('//@item'):])
                 self.do_item(args, kv)
@@ -535,7 +538,8 @@ def generate(unit, outdir, repo=REPO, vacuity=False):
     out = os.path.join(outdir, unit + tag + '.rs')
     open(out, 'w', encoding='utf-8').write(text)
     meta = {'unit': unit, 'file': out, 'rules': g.rules, 'slices': g.slices, 'funcs': g.funcs,
-            'dropped_statements': g.dropped, 'origin': g.origin}
+            'dropped_statements': g.dropped, 'origin': g.origin, 'smt_options': g.smt_options,
+            'shared_contracts': g.shared_contracts}
     return out, meta
 
 
